@@ -337,12 +337,12 @@ QUICK = {
     'C06': ['c06_wellformed_exact'] + _g('c06_semilegal_validator', [('w', 'king'), ('w', 'pawn'), ('b', 'knight'), ('b', 'bishop'), ('w', 'rook'), ('b', 'queen'),
             ('w', 'ep'), ('b', 'ep'), ('w', 'castling'), ('b', 'castling')]),
     'C07': ['c07_outcome_classification_nomove_w', 'c07_outcome_classification_move_b', 'c07_castling_never_only_move_w', 'c07_castling_never_only_move_b'],
-    'C09': ['c09_san_simple_pawn_refused', 'c12_san_parse_total_5'],
+    'C09': ['c09_san_simple_pawn_refused', 'c12_san_parse_total_7'],
     'C10': _g('c10_uci_struct_roundtrip', [('w', 'king'), ('w', 'pawn'), ('w', 'pspecial'), ('w', 'ep'), ('w', 'castling'), ('b', 'knight'), ('b', 'bishop'), ('b', 'rook'),
             ('b', 'queen'), ('b', 'ep')]) + ['c10_uci_parse_exact'],
     'C11': ['c11_validate_accept_w', 'c11_validate_accept_b', 'c11_validate_normal_w', 'c11_validate_idem_b'],
     'C12': ['c12_coord_parse', 'c12_coord_roundtrip', 'c12_color_parse', 'c12_cell_parse', 'c12_castling_parse', 'c12_castling_roundtrip',
-            'c12_san_parse_total_5', 'c10_uci_parse_exact'],
+            'c12_san_parse_total_7', 'c10_uci_parse_exact'],
     'C13': ['c13_chain_step_s0_p2_other', 'c13_chain_push_pop_s1_p0_ep', 'c13_chain_push_pop_s0_p0_castling', 'c13_chain_step_s3_p0_other'],
     'C14': ['c14_outcome_filter_table', 'c14_chain_outcome_precedence', 'c13_chain_step_s3_p0_other', 'c13_chain_step_s0_p2_other', 'c07_outcome_classification_move_w'],
     'C15': ['c15_leapers_exact', 'c15_between_exact', 'c15_bishop_exact'],
